@@ -1,5 +1,6 @@
 import Vflow.Proofs.PipelineAcct
 import Vflow.Gen.WorkerIR
+import Vflow.Props.C08
 /-!
 # C13 — each received datagram is accounted for and published at most once
 
@@ -13,6 +14,12 @@ All theorems: ANY number of workers, ANY datagram sequence, EVERY schedule (`Rea
 worker program; `spec` is the code's own notion of "decoded" (`.onMsg`: ipfix / v9 / v5 count when
 `Decode` returned a message; `.onYield`: sFlow counts when the datagram decoded, has a sample and
 marshalled) — the obligations at the end check the extracted programs against it.
+
+For NetFlow v5 the two notions coincide since the F29 repair (`v5_counted_iff_decodes`): the decoder model
+returns a message **or** an error, never both (`V5.decode : Except V5Err Msg`), and it returns a message
+exactly for the datagrams that hold a version-5 header with a count in 1..30 and all announced records
+(`C08.decode_ok_iff`).  Before the repair `type nonfatalError error` made `Decode` hand out the header
+together with the error for a datagram shorter than announced, and `DecodedCount` counted it.
 -/
 namespace Vflow.C13
 open Vflow Vflow.Pipeline
@@ -189,6 +196,53 @@ theorem readloops_canonical :
     Gen.sFlowRun = canonicalRx ∧
     Gen.ipfixRunTail = canonicalRxTail ∧ Gen.netflowV9RunTail = canonicalRxTail ∧
     Gen.netflowV5RunTail = canonicalRxTail ∧ Gen.sFlowRunTail = canonicalRxTail := by decide
+
+/-! ## NetFlow v5: "counted as decoded" is "decodes successfully" (F29) -/
+
+/-- the NetFlow v5 instance of the pipeline's codec parameter: `Decode` of `Vflow.V5` (no template cache; `none`
+= `(nil, err)`), the worker's `Flows != nil` test, `JSONMarshal` (never fails) -/
+def v5Codec : Codec where
+  Cache := Unit
+  Msg := V5.Msg
+  decode := fun _ addr bs =>
+    (match V5.decode bs with
+     | .ok m => some m
+     | .error _ => none, ())
+  hasData := fun m => !m.flows.isEmpty
+  marshal := fun m => some (V5.marshal [] m)
+
+/-- **C13 (NetFlow v5, exactly once as decoded iff it decodes successfully)**: for every number of workers, every
+datagram sequence and every schedule of the extracted `netflowV5Worker` (any `.onMsg`-canonical program), a
+datagram whose iteration is over has been counted in `DecodedCount` exactly once if it holds a header with
+version 5, a count in 1..30 and all `24 + 48·Count` octets, and not at all otherwise — in particular not when it
+is 1..47 octets short of what its header announces (the F29 input) -/
+theorem v5_counted_iff_decodes (hc : Canonical .onMsg cfg.prog) {mem0 : BufId → Bytes} {s : State v5Codec}
+    (hr : Reach cfg (init v5Codec () mem0) s) (d : Dgram) (hf : d ∈ s.fin) :
+    nK 2 s.log d.id =
+      (if 24 ≤ d.bytes.length ∧ V5.fieldAt (Spec.valuesAt (V5.widths Spec.v5Header) d.bytes) 0 = 5 ∧
+          1 ≤ V5.fieldAt (Spec.valuesAt (V5.widths Spec.v5Header) d.bytes) 1 ∧
+          V5.fieldAt (Spec.valuesAt (V5.widths Spec.v5Header) d.bytes) 1 ≤ 30 ∧
+          24 + 48 * V5.fieldAt (Spec.valuesAt (V5.widths Spec.v5Header) d.bytes) 1 ≤ d.bytes.length
+       then 1 else 0) := by
+  obtain ⟨_, c', _, _, _, h2, _⟩ := finished_account (spec := .onMsg) hc hr d hf
+  rw [h2]
+  have hiff := C08.decode_ok_iff d.bytes
+  have hcnt : counts v5Codec .onMsg (v5Codec.decode c' d.addr d.bytes).1 = true ↔ ∃ m, V5.decode d.bytes = .ok m := by
+    simp only [counts, v5Codec]
+    cases V5.decode d.bytes with
+    | ok m => simp
+    | error e => simp
+  by_cases hok : ∃ m, V5.decode d.bytes = .ok m
+  · rw [if_pos (hcnt.mpr hok), if_pos (hiff.mp hok)]
+  · rw [if_neg (fun h => hok (hcnt.mp h)), if_neg (fun h => hok (hiff.mpr h))]
+
+/-- non-vacuity: the one-flow datagram of `Props/C08` counts as decoded and yields a payload; cut one octet
+short it does neither (before the F29 repair it counted) -/
+example :
+    counts v5Codec .onMsg (v5Codec.decode () [] C08.exPacket).1 = true ∧
+    (outcome v5Codec (v5Codec.decode () [] C08.exPacket).1).isSome = true ∧
+    counts v5Codec .onMsg (v5Codec.decode () [] (C08.exPacket.take 71)).1 = false ∧
+    outcome v5Codec (v5Codec.decode () [] (C08.exPacket.take 71)).1 = none := by decide +kernel
 
 /-! ## non-vacuity and mutants -/
 
